@@ -48,3 +48,4 @@ pub fn seed_from_args() -> u64 {
     }
     0
 }
+pub mod mockdb;
